@@ -17,12 +17,27 @@ import (
 // C13: goroutines sharing one Client. Shared connection: Send from N goroutines; per-call
 // connections: DialAndSend from N goroutines. The harness binary for this suite is built with -race.
 
-func c13Msg(i int) *mail.Msg {
+func c13Msg(i int) *mail.Msg { return c13MsgOfSize(i, 0) }
+
+// c13MsgOfSize: size > 0 = a body of about that many bytes in which every line names its message (and an
+// attachment of a third of it, so that the content goes through every layer of the writer)
+func c13MsgOfSize(i, size int) *mail.Msg {
 	m := mail.NewMsg()
 	_ = m.From(fmt.Sprintf("sender%d@example.com", i))
 	_ = m.To(fmt.Sprintf("rcpt%d@example.com", i))
 	m.Subject(fmt.Sprintf("verif message %d", i))
-	m.SetBodyString(mail.TypeTextPlain, fmt.Sprintf("body of message %d\r\n", i))
+	if size == 0 {
+		m.SetBodyString(mail.TypeTextPlain, fmt.Sprintf("body of message %d\r\n", i))
+		return m
+	}
+	var b strings.Builder
+	for k := 0; b.Len() < size; k++ {
+		fmt.Fprintf(&b, "own line of message %04d number %06d ........................\r\n", i, k)
+	}
+	m.SetBodyString(mail.TypeTextPlain, b.String(), mail.WithPartEncoding(mail.NoEncoding))
+	whole := b.String()
+	cut := strings.LastIndex(whole[:size/3], "\r\n") + 2 // whole lines only
+	_ = m.AttachReader("data.txt", strings.NewReader(whole[:cut]), mail.WithFileEncoding(mail.NoEncoding))
 	return m
 }
 
@@ -64,6 +79,20 @@ func checkTranscript(c *Ctx, evs []Event, committed [][]byte, in interface{}, se
 				c.Violate("c13-envelope-content-mismatch", fmt.Sprintf("message %d was sent with envelope %s -> %s", idx, sender, rcpt), in)
 			}
 			seen[idx]++
+			// every line that names a message names THIS one (large contents travel in blocks: none of another message)
+			own := fmt.Sprintf("own line of message %04d ", idx)
+			rest := string(e.Data)
+			for {
+				k := strings.Index(rest, "own line of message ")
+				if k < 0 {
+					break
+				}
+				if !strings.HasPrefix(rest[k:], own) {
+					c.Violate("c13-content-of-another-message", fmt.Sprintf("the payload committed for message %d contains %.40q", idx, rest[k:]), in)
+					break
+				}
+				rest = rest[k+len(own):]
+			}
 		}
 	}
 }
@@ -176,10 +205,18 @@ func init() {
 					c.Note("config: %v", err)
 					continue
 				}
-				in := map[string]interface{}{"goroutines": n, "mode": []string{"Send on a shared connection", "DialAndSend per call", "Send on the shared connection and DialAndSend (some refused at end-of-data) at the same time"}[mode], "jitter": jitter, "auth": authType, "primary_port_unreachable": fallback}
+				// every fifth round: contents of 70 KB .. 1 MiB (fewer goroutines)
+				size := 0
+				if round%5 == 4 {
+					size = []int{70000, 200000, 1 << 20}[(round/5)%3]
+					if n > 16 {
+						n = 16
+					}
+				}
+				in := map[string]interface{}{"content_bytes": size, "goroutines": n, "mode": []string{"Send on a shared connection", "DialAndSend per call", "Send on the shared connection and DialAndSend (some refused at end-of-data) at the same time"}[mode], "jitter": jitter, "auth": authType, "primary_port_unreachable": fallback}
 				msgs := make([]*mail.Msg, n)
 				for i := range msgs {
-					msgs[i] = c13Msg(i)
+					msgs[i] = c13MsgOfSize(i, size)
 				}
 				errs := make([]error, n)
 				var wg sync.WaitGroup
